@@ -4,6 +4,15 @@ New functions (not in this inventory) are treated as freshly extracted helpers a
 import ast, json, os, sys
 sys.path.insert(0, os.path.dirname(os.path.dirname(os.path.abspath(__file__))))
 from sigstat.inline import enumerate_defs, module_globals, INVENTORY
+from sigstat.core import _Normalise
+from sigstat.pathnorm import normalise_pathlib
+
+
+def parse_normalised(path):
+    """the tree as the loader hands it to the inliner (sigstat.core.Program._load)"""
+    return _Normalise().visit(normalise_pathlib(ast.parse(open(path).read(), filename=path)))
+
+
 repo = sys.argv[1] if len(sys.argv) > 1 else "/repo"
 funcs = []
 globs = []
@@ -18,7 +27,7 @@ for dp, dn, fns in os.walk(pkg):
             mod = rel[:-3].replace(os.sep, ".")
             if mod.endswith(".__init__"):
                 mod = mod[:-9]
-            tree = ast.parse(open(full).read())
+            tree = parse_normalised(full)
             funcs += [d.qual for d in enumerate_defs(mod, tree)]
             globs += module_globals(mod, tree)
             for d in enumerate_defs(mod, tree):
@@ -43,7 +52,7 @@ for dp, dn, fns in os.walk(pkg):
             mod = os.path.relpath(full, repo)[:-3].replace(os.sep, ".")
             if mod.endswith(".__init__"):
                 mod = mod[:-9]
-            trees[mod] = ast.parse(open(full).read())
+            trees[mod] = parse_normalised(full)
 for q, t in templates.items():
     fdef = ast.parse(t["src"]).body[0]
     body = [x for x in fdef.body if not (isinstance(x, ast.Expr) and isinstance(x.value, ast.Constant) and isinstance(x.value.value, str))]
@@ -59,9 +68,14 @@ for q, t in templates.items():
                 if type(n) is type(pat) and ModuleInliner._tmatch(pat, n, params, {}):
                     inst.append(d.qual)
     t["base_instances"] = sorted(set(inst))
+sources = {}
 for mod, tree in trees.items():
     for d in enumerate_defs(mod, tree):
         if d.kind in ("module", "method") and len(d.node.body) >= 2:
             bodies[d.qual] = _body_sig(d.node)
-json.dump({"comment": "function inventory of the reference tree; see sigstat/inline.py", "functions": sorted(set(funcs)), "globals": sorted(set(globs)), "templates": templates, "bodies": bodies}, open(INVENTORY, "w"), indent=0)
+        if d.kind in ("module", "method"):
+            # the normalised source of every function of the reference tree: used only to *recognise* a function that was renamed, moved, turned
+            # from a method into a function or written out at its call sites (sigstat/restore.py unifies the current code with it)
+            sources[d.qual] = {"class": d.cls.name if d.cls is not None else None, "src": ast.unparse(d.node)}
+json.dump({"comment": "function inventory of the reference tree; see sigstat/inline.py", "functions": sorted(set(funcs)), "globals": sorted(set(globs)), "templates": templates, "bodies": bodies, "sources": sources}, open(INVENTORY, "w"), indent=0)
 print(len(set(funcs)), "functions")
